@@ -16,12 +16,7 @@ Fixpoint val_eqb_u (fuel : nat) (a b : val) {struct fuel} : bool :=
             (Nat.eqb (length xs) (length ys))
             && forallb (fun x => existsb (fun y => val_eqb_u f x y) ys) xs
             && forallb (fun y => existsb (fun x => val_eqb_u f x y) xs) ys
-          else (t1 =? t2) && (fix go (xs ys : list val) : bool :=
-                 match xs, ys with
-                 | [], [] => true
-                 | x :: xs', y :: ys' => val_eqb_u f x y && go xs' ys'
-                 | _, _ => false
-                 end) xs ys
+          else (t1 =? t2) && val_eqb_u f (VL xs) (VL ys)      (* a two-element list whose second element may itself be a set *)
       | VL xs, VL ys =>
           (fix go (xs ys : list val) : bool :=
              match xs, ys with
